@@ -40,14 +40,16 @@ theorem PiecesGood.cons {t : Toc δ} {c : Nat} {b : β} {qs : List (Nat × β)}
   · subst h; exact hc
   · exact hq p h
 
-theorem chunkOk_iff (t : Toc δ) (c : Nat) (b : β) :
-    chunkOk H t c b = true ↔ t.dig c = some (H b) := by
-  unfold chunkOk
-  cases hd : t.dig c with
+theorem digOk_iff (dg : Option δ) (b : β) : digOk H dg b = true ↔ dg = some (H b) := by
+  unfold digOk
+  cases dg with
   | none => simp
   | some d =>
     simp only [decide_eq_true_eq, Option.some.injEq]
     exact ⟨fun h => h.symm, fun h => h.symm⟩
+
+theorem chunkOk_iff (t : Toc δ) (c : Nat) (b : β) :
+    chunkOk H t c b = true ↔ t.dig c = some (H b) := digOk_iff H (t.dig c) b
 
 theorem cget_mem {ca : Cache β} {k : Key} {e : Entry β} (h : cget ca k = some e) : (k, e) ∈ ca := by
   induction ca with
@@ -302,24 +304,31 @@ theorem mergeChunks_spec (t : Toc δ) (vf : Bool) (adv : Nat → Option β)
 
 /-! ## one layer object -/
 
-/-- The invariant of one layer object (see the field comments). -/
-structure Inv (s : St β δ) : Prop where
-  /-- the ghost bit of a cache entry is honest -/
-  good : CacheInv H s.toc s.cache
-  /-- ... and so is the ghost bit of a writer in flight -/
-  pgood : ∀ p ∈ s.pending, p.2.ver = true → PiecesGood H s.toc p.2.pieces
+/-- The part of the invariant that holds whatever TOC a clone-based prefetch compares with. -/
+structure InvF (s : St β δ) : Prop where
   /-- an unverified writer in flight has been recorded in `lastVerifyErr` -/
   pend : ∀ p ∈ s.pending, p.2.ver = false → s.lastVerifyErr = true
-  /-- unless the layer was skip-verified or a failure is on record, the cache holds verified entries only -/
+  /-- unless the layer was skip-verified or a failure is on record, every cache entry was compared
+  with a digest before insertion -/
   clean : s.layerR ≠ .skipped → s.lastVerifyErr = false → AllVer s.cache
   /-- a verified layer verifies reads, aborts failing prefetches, and has no failure on record -/
   ver : s.layerR = .verified → s.verifyFlag = true ∧ s.prohibit = true ∧ s.lastVerifyErr = false
 
-theorem inv_init (parse : β → Toc δ) (cfg : Cfg) (tb : β) : Inv H (init parse cfg tb) := by
-  refine ⟨CacheInv.nil H _, ?_, ?_, fun _ _ => AllVer.nil, ?_⟩
-  · intro p hp; cases hp
+/-- The invariant of one layer object whose prefetches compared with the TOC of this object. -/
+structure Inv (s : St β δ) : Prop extends InvF s where
+  /-- the ghost bit of a cache entry is honest: "compared" means "matches the TOC of this object" -/
+  good : CacheInv H s.toc s.cache
+  /-- ... and so is the ghost bit of a writer in flight -/
+  pgood : ∀ p ∈ s.pending, p.2.ver = true → PiecesGood H s.toc p.2.pieces
+
+theorem invF_init (parse : β → Toc δ) (cfg : Cfg) (tb : β) : InvF (init parse cfg tb) := by
+  refine ⟨?_, fun _ _ => AllVer.nil, ?_⟩
   · intro p hp; cases hp
   · intro h; cases h
+
+theorem inv_init (parse : β → Toc δ) (cfg : Cfg) (tb : β) : Inv H (init parse cfg tb) := by
+  refine ⟨invF_init parse cfg tb, CacheInv.nil H _, ?_⟩
+  intro p hp; cases hp
 
 theorem mem_removeNth {α : Type} {x : α} : ∀ {l : List α} {i : Nat}, x ∈ removeNth l i → x ∈ l
   | [], _, h => by simp [removeNth] at h
@@ -331,94 +340,90 @@ theorem mem_removeNth {α : Type} {x : α} : ∀ {l : List α} {i : Nat}, x ∈ 
     · exact List.mem_cons_of_mem _ (mem_removeNth h)
 
 /-- The three outcomes of the critical section of `readAndCache`. -/
-theorem prefetchDecide_cases (s : St β δ) (c : Nat) (reply : Option β) :
-    (∃ r, prefetchDecide H s c reply = (s, r, none)) ∨
-    (∃ b, reply = some b ∧ s.toc.dig c = some (H b) ∧ cget s.cache (.chunk c) = none ∧
-      prefetchDecide H s c reply = (s, .ok, some ⟨[(c, b)], true⟩)) ∨
-    (∃ b, reply = some b ∧ chunkOk H s.toc c b = false ∧ s.prohibit = false ∧
+theorem prefetchDecideWith_cases (s : St β δ) (c : Nat) (reply : Option β) (dg : Option δ) :
+    (∃ r, prefetchDecideWith H s c reply dg = (s, r, none) ∧ (r = .ok ∨ r = .err)) ∨
+    (∃ b, reply = some b ∧ dg = some (H b) ∧ cget s.cache (.chunk c) = none ∧
+      prefetchDecideWith H s c reply dg = (s, .ok, some ⟨[(c, b)], true⟩)) ∨
+    (∃ b, reply = some b ∧ digOk H dg b = false ∧ s.prohibit = false ∧
       cget s.cache (.chunk c) = none ∧
-      prefetchDecide H s c reply = ({ s with lastVerifyErr := true }, .ok, some ⟨[(c, b)], false⟩)) := by
+      prefetchDecideWith H s c reply dg = ({ s with lastVerifyErr := true }, .ok, some ⟨[(c, b)], false⟩)) := by
   cases hg : cget s.cache (.chunk c) with
-  | some e => exact Or.inl ⟨.ok, by simp [prefetchDecide, hg]⟩
+  | some e => exact Or.inl ⟨.ok, by simp [prefetchDecideWith, hg], Or.inl rfl⟩
   | none =>
     cases reply with
-    | none => exact Or.inl ⟨.err, by simp [prefetchDecide, hg]⟩
+    | none => exact Or.inl ⟨.err, by simp [prefetchDecideWith, hg], Or.inr rfl⟩
     | some b =>
-      cases hck : chunkOk H s.toc c b with
+      cases hck : digOk H dg b with
       | true =>
-        exact Or.inr (Or.inl ⟨b, rfl, (chunkOk_iff H _ _ _).mp hck, by first | assumption | rfl,
-          by simp [prefetchDecide, hg, hck]⟩)
+        exact Or.inr (Or.inl ⟨b, rfl, (digOk_iff H _ _).mp hck, by first | assumption | rfl,
+          by simp [prefetchDecideWith, hg, hck]⟩)
       | false =>
         cases hp : s.prohibit with
-        | true => exact Or.inl ⟨.err, by simp [prefetchDecide, hg, hck, hp]⟩
+        | true => exact Or.inl ⟨.err, by simp [prefetchDecideWith, hg, hck, hp], Or.inr rfl⟩
         | false =>
           exact Or.inr (Or.inr ⟨b, rfl, by first | assumption | rfl, by first | assumption | rfl,
-            by first | assumption | rfl, by simp [prefetchDecide, hg, hck, hp]⟩)
+            by first | assumption | rfl, by simp [prefetchDecideWith, hg, hck, hp]⟩)
 
-/-- Recording a failure keeps the invariant (the decision has not been taken yet). -/
-theorem Inv.record {s : St β δ} (hi : Inv H s) (hp : s.prohibit = false) :
-    Inv H { s with lastVerifyErr := true } := by
-  refine ⟨hi.good, hi.pgood, fun _ _ _ => rfl, ?_, ?_⟩
+theorem prefetchBegin_eq (s : St β δ) (c : Nat) (reply : Option β) :
+    prefetchBegin H s c reply = prefetchBeginWith H s c reply (s.toc.dig c) := rfl
+
+theorem prefetch_eq (s : St β δ) (c : Nat) (reply : Option β) :
+    prefetch H s c reply = prefetchWith H s c reply (s.toc.dig c) := rfl
+
+/-! ### the flag part of the invariant: every operation keeps it -/
+
+theorem InvF.record {s : St β δ} (hi : InvF s) (hp : s.prohibit = false) :
+    InvF { s with lastVerifyErr := true } := by
+  refine ⟨fun _ _ _ => rfl, ?_, ?_⟩
   · intro _ h; cases h
   · intro hv
     have := (hi.ver hv).2.1
     rw [hp] at this; cases this
 
-theorem Inv.addPending {s : St β δ} (hi : Inv H s) {c : Nat} {e : Entry β}
-    (hg : e.ver = true → PiecesGood H s.toc e.pieces) (hb : e.ver = false → s.lastVerifyErr = true) :
-    Inv H { s with pending := s.pending ++ [(c, e)] } := by
-  refine ⟨hi.good, ?_, ?_, hi.clean, hi.ver⟩
-  · intro p hp
-    rcases List.mem_append.mp hp with h | h
-    · exact hi.pgood p h
-    · simp only [List.mem_singleton] at h; subst h; exact hg
-  · intro p hp
-    rcases List.mem_append.mp hp with h | h
-    · exact hi.pend p h
-    · simp only [List.mem_singleton] at h; subst h; exact hb
+theorem InvF.addPending {s : St β δ} (hi : InvF s) {c : Nat} {e : Entry β}
+    (hb : e.ver = false → s.lastVerifyErr = true) :
+    InvF { s with pending := s.pending ++ [(c, e)] } := by
+  refine ⟨?_, hi.clean, hi.ver⟩
+  intro p hp
+  rcases List.mem_append.mp hp with h | h
+  · exact hi.pend p h
+  · simp only [List.mem_singleton] at h; subst h; exact hb
 
-theorem Inv.putChunk {s : St β δ} (hi : Inv H s) {k : Key} {e : Entry β}
-    (hg : e.ver = true → PiecesGood H s.toc e.pieces) (hb : e.ver = false → s.lastVerifyErr = true) :
-    Inv H { s with cache := cput s.cache k e } := by
-  refine ⟨hi.good.cput H hg, hi.pgood, hi.pend, ?_, hi.ver⟩
+theorem InvF.putChunk {s : St β δ} (hi : InvF s) {k : Key} {e : Entry β}
+    (hb : e.ver = false → s.lastVerifyErr = true) :
+    InvF { s with cache := cput s.cache k e } := by
+  refine ⟨hi.pend, ?_, hi.ver⟩
   intro h1 h2
   refine (hi.clean h1 h2).cput ?_
   cases hv : e.ver with
   | true => rfl
   | false => have := hb hv; simp only at h2 this; rw [h2] at this; cases this
 
-theorem inv_prefetchBegin {s : St β δ} (hi : Inv H s) (c : Nat) (reply : Option β) :
-    Inv H (prefetchBegin H s c reply).1 := by
-  unfold prefetchBegin
-  rcases prefetchDecide_cases H s c reply with ⟨r, h⟩ | ⟨b, _, hd, _, h⟩ | ⟨b, _, _, hp, _, h⟩
+theorem invF_prefetchBeginWith {s : St β δ} (hi : InvF s) (c : Nat) (reply : Option β) (dg : Option δ) :
+    InvF (prefetchBeginWith H s c reply dg).1 := by
+  unfold prefetchBeginWith
+  rcases prefetchDecideWith_cases H s c reply dg with ⟨r, h, _⟩ | ⟨b, _, _, _, h⟩ | ⟨b, _, _, hp, _, h⟩
   · rw [h]; exact hi
-  · rw [h]
-    refine hi.addPending H (fun _ => PiecesGood.cons H hd (PiecesGood.nil H _)) (fun hv => by cases hv)
-  · rw [h]
-    exact (hi.record H hp).addPending H (fun hv => by cases hv) (fun _ => rfl)
+  · rw [h]; exact hi.addPending (fun hv => by cases hv)
+  · rw [h]; exact (hi.record hp).addPending (fun _ => rfl)
 
-theorem inv_prefetch {s : St β δ} (hi : Inv H s) (c : Nat) (reply : Option β) :
-    Inv H (prefetch H s c reply).1 := by
-  unfold prefetch
-  rcases prefetchDecide_cases H s c reply with ⟨r, h⟩ | ⟨b, _, hd, _, h⟩ | ⟨b, _, _, hp, _, h⟩
+theorem invF_prefetchWith {s : St β δ} (hi : InvF s) (c : Nat) (reply : Option β) (dg : Option δ) :
+    InvF (prefetchWith H s c reply dg).1 := by
+  unfold prefetchWith
+  rcases prefetchDecideWith_cases H s c reply dg with ⟨r, h, _⟩ | ⟨b, _, _, _, h⟩ | ⟨b, _, _, hp, _, h⟩
   · rw [h]; exact hi
-  · rw [h]
-    refine hi.putChunk H (fun _ => PiecesGood.cons H hd (PiecesGood.nil H _)) (fun hv => by cases hv)
-  · rw [h]
-    exact (hi.record H hp).putChunk H (fun hv => by cases hv) (fun _ => rfl)
+  · rw [h]; exact hi.putChunk (fun hv => by cases hv)
+  · rw [h]; exact (hi.record hp).putChunk (fun _ => rfl)
 
-theorem inv_prefetchCommit {s : St β δ} (hi : Inv H s) (i : Nat) :
-    Inv H (prefetchCommit s i).1 := by
+theorem invF_prefetchCommit {s : St β δ} (hi : InvF s) (i : Nat) : InvF (prefetchCommit s i).1 := by
   unfold prefetchCommit
   cases hp : s.pending[i]? with
   | none => exact hi
   | some ce =>
     obtain ⟨c, e⟩ := ce
     have hm : (c, e) ∈ s.pending := List.mem_of_getElem? hp
-    have h1 := hi.putChunk H (k := .chunk c) (hi.pgood _ hm) (hi.pend _ hm)
-    refine ⟨h1.good, ?_, ?_, h1.clean, h1.ver⟩
-    · intro p hp; exact hi.pgood p (mem_removeNth hp)
-    · intro p hp; exact hi.pend p (mem_removeNth hp)
+    have h1 := hi.putChunk (k := .chunk c) (hi.pend _ hm)
+    exact ⟨fun p hp => hi.pend p (mem_removeNth hp), h1.clean, h1.ver⟩
 
 /-- The outcomes of `VerifiableReader.VerifyTOC`. -/
 theorem verifyTOC_cases (s : St β δ) (D : δ) :
@@ -453,21 +458,21 @@ theorem layerVerify_cases (s : St β δ) (D : δ) :
     · exact Or.inr (Or.inl ⟨by simp, by simp [h, hr], hc⟩)
     · exact Or.inr (Or.inr ⟨by simp, by simp [h], hl, hd⟩)
 
-theorem Inv.prohibit {s : St β δ} (hi : Inv H s) : Inv H { s with prohibit := true } :=
-  ⟨hi.good, hi.pgood, hi.pend, hi.clean, fun hv => ⟨(hi.ver hv).1, rfl, (hi.ver hv).2.2⟩⟩
+theorem InvF.prohibit {s : St β δ} (hi : InvF s) : InvF { s with prohibit := true } :=
+  ⟨hi.pend, hi.clean, fun hv => ⟨(hi.ver hv).1, rfl, (hi.ver hv).2.2⟩⟩
 
-theorem inv_layerVerify {s : St β δ} (hi : Inv H s) (D : δ) : Inv H (layerVerify H s D).1 := by
+theorem invF_layerVerify {s : St β δ} (hi : InvF s) (D : δ) : InvF (layerVerify H s D).1 := by
   rcases layerVerify_cases H s D with ⟨_, h⟩ | ⟨_, h, _⟩ | ⟨hr, h, hl, _⟩
   · rw [h]; exact hi
-  · rw [h]; exact hi.prohibit H
+  · rw [h]; exact hi.prohibit
   · rw [h]
-    exact ⟨hi.good, hi.pgood, hi.pend, fun _ _ => hi.clean hr hl, fun _ => ⟨rfl, rfl, hl⟩⟩
+    exact ⟨hi.pend, fun _ _ => hi.clean hr hl, fun _ => ⟨rfl, rfl, hl⟩⟩
 
-theorem inv_layerSkip {s : St β δ} (hi : Inv H s) : Inv H (layerSkip s) := by
+theorem invF_layerSkip {s : St β δ} (hi : InvF s) : InvF (layerSkip s) := by
   unfold layerSkip
   cases hr : s.layerR with
   | none =>
-    refine ⟨hi.good, hi.pgood, hi.pend, ?_, ?_⟩
+    refine ⟨hi.pend, ?_, ?_⟩
     · intro h; exact absurd rfl h
     · intro h; cases h
   | verified => exact hi
@@ -475,57 +480,43 @@ theorem inv_layerSkip {s : St β δ} (hi : Inv H s) : Inv H (layerSkip s) := by
 
 /-- Replacing the cache by what a cache-level primitive made of it keeps the invariant, provided
 the layer has a reader (reads are impossible before). -/
-theorem Inv.setCache {s : St β δ} (hi : Inv H s) (hr : s.layerR ≠ .none) {ca : Cache β}
-    (hp : Pres H s.toc s.verifyFlag s.cache ca) : Inv H { s with cache := ca } := by
-  refine ⟨hp.1 hi.good, hi.pgood, hi.pend, ?_, hi.ver⟩
+theorem InvF.setCache {s : St β δ} (hi : InvF s) (hr : s.layerR ≠ .none) {ca : Cache β}
+    (hp : s.verifyFlag = true → AllVer s.cache → AllVer ca) : InvF { s with cache := ca } := by
+  refine ⟨hi.pend, ?_, hi.ver⟩
   intro h1 h2
   have hv : s.layerR = .verified := by
     cases hx : s.layerR with
     | none => exact absurd hx hr
     | skipped => exact absurd hx h1
     | verified => rfl
-  exact hp.2 (hi.ver hv).1 (hi.clean h1 h2)
+  exact hp (hi.ver hv).1 (hi.clean h1 h2)
 
-theorem inv_rawRead {s : St β δ} (hi : Inv H s) (hr : s.layerR ≠ .none) (steps : List (Step β)) :
-    Inv H (rawRead H s steps).1 := by
+theorem rawRead_pres (s : St β δ) (steps : List (Step β)) :
+    ∃ ca, (rawRead H s steps).1 = { s with cache := ca } ∧ Pres H s.toc s.verifyFlag s.cache ca := by
   unfold rawRead
   split
   · rename_i ca h
-    exact hi.setCache H hr (readSteps_spec H _ _ _ _ _ _ h).1
+    exact ⟨ca, rfl, (readSteps_spec H _ _ _ _ _ _ h).1⟩
   · rename_i ca ps h
-    exact hi.setCache H hr (readSteps_spec H _ _ _ _ _ _ h).1
+    exact ⟨ca, rfl, (readSteps_spec H _ _ _ _ _ _ h).1⟩
 
-theorem inv_rawPassthrough {s : St β δ} (hi : Inv H s) (hr : s.layerR ≠ .none) (f : Nat)
-    (adv : Nat → Option β) (pre : Nat → List (Nat × Option β)) (fb : Bool) :
-    Inv H (rawPassthrough H s f adv pre fb).1 := by
+theorem rawPassthrough_pres (s : St β δ) (f : Nat) (adv : Nat → Option β)
+    (pre : Nat → List (Nat × Option β)) (fb : Bool) :
+    ∃ ca, (rawPassthrough H s f adv pre fb).1 = { s with cache := ca } ∧
+      Pres H s.toc s.verifyFlag s.cache ca := by
   unfold rawPassthrough
   simp only
   split
-  · exact hi
+  · exact ⟨s.cache, rfl, Pres.refl H _ _ _⟩
   · split
     · rename_i ca h
-      exact hi.setCache H hr (mergeChunks_spec H _ _ _ _ _ _ _ _ h).1
+      exact ⟨ca, rfl, (mergeChunks_spec H _ _ _ _ _ _ _ _ h).1⟩
     · rename_i ca e h
       obtain ⟨hp, he⟩ := mergeChunks_spec H _ _ _ _ _ _ _ _ h
       obtain ⟨h1, h2⟩ := he e rfl
-      refine hi.setCache H hr ⟨?_, ?_⟩
+      refine ⟨_, rfl, ?_, ?_⟩
       · intro hc; exact (hp.1 hc).cput H (h1 hc)
       · intro hv ha; exact (hp.2 hv ha).cput (h2 hv ha)
-
-theorem inv_read {s : St β δ} (hi : Inv H s) (steps : List (Step β)) : Inv H (read H s steps).1 := by
-  unfold read
-  cases hr : s.layerR with
-  | none => exact hi
-  | verified => exact inv_rawRead H hi (by simp [hr]) steps
-  | skipped => exact inv_rawRead H hi (by simp [hr]) steps
-
-theorem inv_passthrough {s : St β δ} (hi : Inv H s) (f : Nat) (adv : Nat → Option β)
-    (pre : Nat → List (Nat × Option β)) (fb : Bool) : Inv H (passthrough H s f adv pre fb).1 := by
-  unfold passthrough
-  cases hr : s.layerR with
-  | none => exact hi
-  | verified => exact inv_rawPassthrough H hi (by simp [hr]) f adv pre fb
-  | skipped => exact inv_rawPassthrough H hi (by simp [hr]) f adv pre fb
 
 theorem readFd_state (s : St β δ) (f : Nat) : (readFd s f).1 = s := by
   unfold readFd rawReadFd
@@ -558,32 +549,144 @@ theorem storeLookup_state (s : St β δ) (D : δ) : (storeLookup H s D).1 = (lay
   unfold storeLookup
   split <;> simp_all
 
-theorem inv_mount {s : St β δ} (hi : Inv H s) (l : Labels δ) : Inv H (mount H s l).1 := by
-  rcases mount_state H s l with h | h | ⟨D, _, _, h⟩
-  · rw [h]; exact hi
-  · rw [h]; exact inv_layerSkip H hi
-  · rw [h]; exact inv_layerVerify H hi D
-
-/-- Every operation keeps the invariant. -/
-theorem inv_step (parse : β → Toc δ) {s : St β δ} (hi : Inv H s) (o : Op β δ) :
-    Inv H (step H parse s o).1 := by
+/-- Every operation keeps the flag part of the invariant — including a clone-based prefetch that
+compares with a TOC of the adversary's choice. -/
+theorem invF_step (parse : β → Toc δ) {s : St β δ} (hi : InvF s) (o : Op β δ) :
+    InvF (step H parse s o).1 := by
   cases o with
-  | prefetchBegin c r => exact inv_prefetchBegin H hi c r
-  | prefetchCommit i => exact inv_prefetchCommit H hi i
-  | layerVerify D => exact inv_layerVerify H hi D
-  | layerSkip => exact inv_layerSkip H hi
-  | mount l => exact inv_mount H hi l
-  | storeLookup D => simp only [step]; rw [storeLookup_state]; exact inv_layerVerify H hi D
-  | read steps => exact inv_read H hi steps
-  | passthrough f adv pre fb => exact inv_passthrough H hi f adv pre fb
+  | prefetchBegin c r => exact invF_prefetchBeginWith H hi c r _
+  | prefetchBeginWith c r dg => exact invF_prefetchBeginWith H hi c r dg
+  | prefetchCommit i => exact invF_prefetchCommit hi i
+  | layerVerify D => exact invF_layerVerify H hi D
+  | layerSkip => exact invF_layerSkip hi
+  | mount l =>
+    simp only [step]
+    rcases mount_state H s l with h | h | ⟨D, _, _, h⟩
+    · rw [h]; exact hi
+    · rw [h]; exact invF_layerSkip hi
+    · rw [h]; exact invF_layerVerify H hi D
+  | storeLookup D => simp only [step]; rw [storeLookup_state]; exact invF_layerVerify H hi D
+  | read steps =>
+    simp only [step, read]
+    cases hr : s.layerR with
+    | none => exact hi
+    | verified =>
+      obtain ⟨ca, h, hp⟩ := rawRead_pres H s steps
+      simp only; rw [h]; exact hi.setCache (by simp [hr]) hp.2
+    | skipped =>
+      obtain ⟨ca, h, hp⟩ := rawRead_pres H s steps
+      simp only; rw [h]; exact hi.setCache (by simp [hr]) hp.2
+  | passthrough f adv pre fb =>
+    simp only [step, passthrough]
+    cases hr : s.layerR with
+    | none => exact hi
+    | verified =>
+      obtain ⟨ca, h, hp⟩ := rawPassthrough_pres H s f adv pre fb
+      simp only; rw [h]; exact hi.setCache (by simp [hr]) hp.2
+    | skipped =>
+      obtain ⟨ca, h, hp⟩ := rawPassthrough_pres H s f adv pre fb
+      simp only; rw [h]; exact hi.setCache (by simp [hr]) hp.2
   | readFd f => simp only [step]; rw [readFd_state]; exact hi
+  | evict tb => exact invF_init parse s.cfg tb
+
+theorem invF_run (parse : β → Toc δ) (ops : List (Op β δ)) :
+    ∀ {s : St β δ}, InvF s → InvF (run H parse s ops) := by
+  induction ops with
+  | nil => intro s hi; exact hi
+  | cons o rest ih => intro s hi; exact ih (invF_step H parse hi o)
+
+/-! ### the full invariant: kept by every operation that compares with the TOC of this object -/
+
+theorem inv_step (parse : β → Toc δ) {s : St β δ} (hi : Inv H s) (o : Op β δ) (hf : o.faithfulAt s) :
+    Inv H (step H parse s o).1 := by
+  have hF := invF_step H parse hi.toInvF o
+  -- the content part
+  have pb : ∀ (c : Nat) (r : Option β) (dg : Option δ), dg = s.toc.dig c →
+      CacheInv H (prefetchBeginWith H s c r dg).1.toc (prefetchBeginWith H s c r dg).1.cache ∧
+      ∀ p ∈ (prefetchBeginWith H s c r dg).1.pending, p.2.ver = true →
+        PiecesGood H (prefetchBeginWith H s c r dg).1.toc p.2.pieces := by
+    intro c r dg hdg
+    unfold prefetchBeginWith
+    rcases prefetchDecideWith_cases H s c r dg with ⟨r', h, _⟩ | ⟨b, _, hd, _, h⟩ | ⟨b, _, _, _, _, h⟩
+    · rw [h]; exact ⟨hi.good, hi.pgood⟩
+    · rw [h]
+      refine ⟨hi.good, ?_⟩
+      intro p hp hv
+      rcases List.mem_append.mp hp with h1 | h1
+      · exact hi.pgood p h1 hv
+      · simp only [List.mem_singleton] at h1; subst h1
+        exact PiecesGood.cons H (hdg ▸ hd) (PiecesGood.nil H _)
+    · rw [h]
+      refine ⟨hi.good, ?_⟩
+      intro p hp hv
+      rcases List.mem_append.mp hp with h1 | h1
+      · exact hi.pgood p h1 hv
+      · simp only [List.mem_singleton] at h1; subst h1; cases hv
+  cases o with
+  | prefetchBegin c r => exact ⟨hF, (pb c r _ rfl).1, (pb c r _ rfl).2⟩
+  | prefetchBeginWith c r dg => exact ⟨hF, (pb c r dg hf).1, (pb c r dg hf).2⟩
+  | prefetchCommit i =>
+    refine ⟨hF, ?_, ?_⟩
+    · simp only [step, prefetchCommit]
+      cases hp : s.pending[i]? with
+      | none => exact hi.good
+      | some ce =>
+        obtain ⟨c, e⟩ := ce
+        exact hi.good.cput H (hi.pgood _ (List.mem_of_getElem? hp))
+    · simp only [step, prefetchCommit]
+      cases hp : s.pending[i]? with
+      | none => exact hi.pgood
+      | some ce =>
+        obtain ⟨c, e⟩ := ce
+        intro p hp'; exact hi.pgood p (mem_removeNth hp')
+  | layerVerify D =>
+    refine ⟨hF, ?_, ?_⟩ <;> simp only [step] <;>
+      rcases layerVerify_cases H s D with ⟨_, h⟩ | ⟨_, h, _⟩ | ⟨_, h, _, _⟩ <;> rw [h] <;>
+      first | exact hi.good | exact hi.pgood
+  | layerSkip =>
+    refine ⟨hF, ?_, ?_⟩ <;> simp only [step, layerSkip] <;> cases s.layerR <;>
+      first | exact hi.good | exact hi.pgood
+  | mount l =>
+    have hst : (mount H s l).1.toc = s.toc ∧ (mount H s l).1.cache = s.cache ∧
+        (mount H s l).1.pending = s.pending := by
+      rcases mount_state H s l with h | h | ⟨D, _, _, h⟩
+      · rw [h]; exact ⟨rfl, rfl, rfl⟩
+      · rw [h]; unfold layerSkip; cases s.layerR <;> exact ⟨rfl, rfl, rfl⟩
+      · rw [h]
+        rcases layerVerify_cases H s D with ⟨_, h2⟩ | ⟨_, h2, _⟩ | ⟨_, h2, _, _⟩ <;> rw [h2] <;>
+          exact ⟨rfl, rfl, rfl⟩
+    refine ⟨hF, ?_, ?_⟩
+    · simp only [step]; rw [hst.1, hst.2.1]; exact hi.good
+    · simp only [step]; rw [hst.1, hst.2.2]; exact hi.pgood
+  | storeLookup D =>
+    refine ⟨hF, ?_, ?_⟩ <;> simp only [step] <;> rw [storeLookup_state] <;>
+      rcases layerVerify_cases H s D with ⟨_, h⟩ | ⟨_, h, _⟩ | ⟨_, h, _, _⟩ <;> rw [h] <;>
+      first | exact hi.good | exact hi.pgood
+  | read steps =>
+    refine ⟨hF, ?_, ?_⟩ <;> simp only [step, read] <;> cases s.layerR <;>
+      first
+      | exact hi.good
+      | exact hi.pgood
+      | (obtain ⟨ca, h, hp⟩ := rawRead_pres H s steps; simp only; rw [h]; exact hp.1 hi.good)
+      | (obtain ⟨ca, h, hp⟩ := rawRead_pres H s steps; simp only; rw [h]; exact hi.pgood)
+  | passthrough f adv pre fb =>
+    refine ⟨hF, ?_, ?_⟩ <;> simp only [step, passthrough] <;> cases s.layerR <;>
+      first
+      | exact hi.good
+      | exact hi.pgood
+      | (obtain ⟨ca, h, hp⟩ := rawPassthrough_pres H s f adv pre fb; simp only; rw [h]; exact hp.1 hi.good)
+      | (obtain ⟨ca, h, hp⟩ := rawPassthrough_pres H s f adv pre fb; simp only; rw [h]; exact hi.pgood)
+  | readFd f =>
+    refine ⟨hF, ?_, ?_⟩ <;> simp only [step] <;> rw [readFd_state] <;>
+      first | exact hi.good | exact hi.pgood
   | evict tb => exact inv_init H parse s.cfg tb
 
 theorem inv_run (parse : β → Toc δ) (ops : List (Op β δ)) :
-    ∀ {s : St β δ}, Inv H s → Inv H (run H parse s ops) := by
+    ∀ {s : St β δ}, Inv H s → FaithfulRun H parse s ops → Inv H (run H parse s ops) := by
   induction ops with
-  | nil => intro s hi; exact hi
-  | cons o rest ih => intro s hi; exact ih (inv_step H parse hi o)
+  | nil => intro s hi _; exact hi
+  | cons o rest ih => intro s hi hf; exact ih (inv_step H parse hi o hf.1) hf.2
+
 /-! ## what only `evict` can undo -/
 
 def Op.isEvict : Op β δ → Bool
@@ -610,18 +713,10 @@ theorem Frame.trans {a b c : St β δ} (h1 : Frame a b) (h2 : Frame b c) : Frame
 theorem Frame.setCache (s : St β δ) (ca : Cache β) : Frame s { s with cache := ca } :=
   ⟨rfl, rfl, rfl, id, id, id, id⟩
 
-theorem frame_prefetchBegin (s : St β δ) (c : Nat) (reply : Option β) :
-    Frame s (prefetchBegin H s c reply).1 := by
-  unfold prefetchBegin
-  rcases prefetchDecide_cases H s c reply with ⟨r, h⟩ | ⟨b, _, _, _, h⟩ | ⟨b, _, _, _, _, h⟩
-  · rw [h]; exact Frame.refl s
-  · rw [h]; exact ⟨rfl, rfl, rfl, id, id, id, id⟩
-  · rw [h]; exact ⟨rfl, rfl, rfl, fun _ => rfl, id, id, id⟩
-
-theorem frame_prefetch (s : St β δ) (c : Nat) (reply : Option β) :
-    Frame s (prefetch H s c reply).1 := by
-  unfold prefetch
-  rcases prefetchDecide_cases H s c reply with ⟨r, h⟩ | ⟨b, _, _, _, h⟩ | ⟨b, _, _, _, _, h⟩
+theorem frame_prefetchBeginWith (s : St β δ) (c : Nat) (reply : Option β) (dg : Option δ) :
+    Frame s (prefetchBeginWith H s c reply dg).1 := by
+  unfold prefetchBeginWith
+  rcases prefetchDecideWith_cases H s c reply dg with ⟨r, h, _⟩ | ⟨b, _, _, _, h⟩ | ⟨b, _, _, _, _, h⟩
   · rw [h]; exact Frame.refl s
   · rw [h]; exact ⟨rfl, rfl, rfl, id, id, id, id⟩
   · rw [h]; exact ⟨rfl, rfl, rfl, fun _ => rfl, id, id, id⟩
@@ -654,22 +749,11 @@ theorem frame_mount (s : St β δ) (l : Labels δ) : Frame s (mount H s l).1 := 
   · rw [h]; exact frame_layerSkip s
   · rw [h]; exact frame_layerVerify H s D
 
-theorem frame_rawRead (s : St β δ) (steps : List (Step β)) : Frame s (rawRead H s steps).1 := by
-  unfold rawRead
-  split <;> exact Frame.setCache s _
-
-theorem frame_rawPassthrough (s : St β δ) (f : Nat) (adv : Nat → Option β)
-    (pre : Nat → List (Nat × Option β)) (fb : Bool) : Frame s (rawPassthrough H s f adv pre fb).1 := by
-  unfold rawPassthrough
-  simp only
-  split
-  · exact Frame.refl s
-  · split <;> exact Frame.setCache s _
-
 theorem frame_step (parse : β → Toc δ) (s : St β δ) (o : Op β δ) (h : o.isEvict = false) :
     Frame s (step H parse s o).1 := by
   cases o with
-  | prefetchBegin c r => exact frame_prefetchBegin H s c r
+  | prefetchBegin c r => exact frame_prefetchBeginWith H s c r _
+  | prefetchBeginWith c r dg => exact frame_prefetchBeginWith H s c r dg
   | prefetchCommit i => exact frame_prefetchCommit s i
   | layerVerify D => exact frame_layerVerify H s D
   | layerSkip => exact frame_layerSkip s
@@ -679,14 +763,14 @@ theorem frame_step (parse : β → Toc δ) (s : St β δ) (o : Op β δ) (h : o.
     simp only [step, read]
     cases s.layerR
     · exact Frame.refl s
-    · exact frame_rawRead H s steps
-    · exact frame_rawRead H s steps
+    · obtain ⟨ca, h, _⟩ := rawRead_pres H s steps; simp only; rw [h]; exact Frame.setCache s ca
+    · obtain ⟨ca, h, _⟩ := rawRead_pres H s steps; simp only; rw [h]; exact Frame.setCache s ca
   | passthrough f adv pre fb =>
     simp only [step, passthrough]
     cases s.layerR
     · exact Frame.refl s
-    · exact frame_rawPassthrough H s f adv pre fb
-    · exact frame_rawPassthrough H s f adv pre fb
+    · obtain ⟨ca, h, _⟩ := rawPassthrough_pres H s f adv pre fb; simp only; rw [h]; exact Frame.setCache s ca
+    · obtain ⟨ca, h, _⟩ := rawPassthrough_pres H s f adv pre fb; simp only; rw [h]; exact Frame.setCache s ca
   | readFd f => simp only [step]; rw [readFd_state]; exact Frame.refl s
   | evict tb => simp [Op.isEvict] at h
 
@@ -715,7 +799,7 @@ theorem run_cfg (parse : β → Toc δ) (ops : List (Op β δ)) :
   | nil => intro s; rfl
   | cons o rest ih => intro s; exact (ih _).trans (step_cfg H parse s o)
 
-/-! ## what a verified layer hands out -/
+/-! ## what a layer hands out -/
 
 theorem rawRead_out {s : St β δ} (hi : Inv H s) (hv : s.layerR = .verified) (steps : List (Step β))
     (ps : List (Nat × β)) (h : (rawRead H s steps).2 = .data ps) : PiecesGood H s.toc ps := by
@@ -747,29 +831,21 @@ theorem layerVerify_ne_data (s : St β δ) (D : δ) (ps : List (Nat × β)) :
     (layerVerify H s D).2 ≠ .data ps := by
   rcases layerVerify_cases H s D with ⟨_, h⟩ | ⟨_, h, _⟩ | ⟨_, h, _, _⟩ <;> rw [h] <;> simp
 
-/-- Only `read` and `readFd` return data, and on a verified layer the data is digest-correct. -/
-theorem step_out (parse : β → Toc δ) {s : St β δ} (hi : Inv H s) (hv : s.layerR = .verified)
-    (o : Op β δ) (ps : List (Nat × β)) (h : (step H parse s o).2 = .data ps) :
-    PiecesGood H s.toc ps := by
+theorem prefetchBeginWith_ne_data (s : St β δ) (c : Nat) (r : Option β) (dg : Option δ)
+    (ps : List (Nat × β)) : (prefetchBeginWith H s c r dg).2 ≠ .data ps := by
+  unfold prefetchBeginWith
+  rcases prefetchDecideWith_cases H s c r dg with ⟨r', h, hr⟩ | ⟨b, _, _, _, h⟩ | ⟨b, _, _, _, _, h⟩
+  · rw [h]; rcases hr with rfl | rfl <;> simp
+  · rw [h]; simp
+  · rw [h]; simp
+
+/-- Only `read` and `readFd` return data, and only for a layer that has a reader. -/
+theorem step_data (parse : β → Toc δ) (s : St β δ) (o : Op β δ) (ps : List (Nat × β))
+    (h : (step H parse s o).2 = .data ps) :
+    s.layerR ≠ .none ∧ ((∃ steps, (rawRead H s steps).2 = .data ps) ∨ (∃ f, (rawReadFd s f).2 = .data ps)) := by
   cases o with
-  | prefetchBegin c r =>
-    exfalso
-    simp only [step, prefetchBegin] at h
-    rcases prefetchDecide_cases H s c r with ⟨r', h'⟩ | ⟨b, _, _, _, h'⟩ | ⟨b, _, _, _, _, h'⟩
-    · rw [h'] at h
-      have h2 := h'
-      unfold prefetchDecide at h2
-      split at h2
-      · simp only [Prod.mk.injEq] at h2; rw [← h2.2.1] at h; cases h
-      · split at h2
-        · simp only [Prod.mk.injEq] at h2; rw [← h2.2.1] at h; cases h
-        · split at h2
-          · simp at h2
-          · split at h2
-            · simp only [Prod.mk.injEq] at h2; rw [← h2.2.1] at h; cases h
-            · simp at h2
-    · rw [h'] at h; cases h
-    · rw [h'] at h; cases h
+  | prefetchBegin c r => exact absurd h (prefetchBeginWith_ne_data H s c r _ ps)
+  | prefetchBeginWith c r dg => exact absurd h (prefetchBeginWith_ne_data H s c r dg ps)
   | prefetchCommit i =>
     exfalso
     simp only [step, prefetchCommit] at h
@@ -783,8 +859,7 @@ theorem step_out (parse : β → Toc δ) {s : St β δ} (hi : Inv H s) (hv : s.l
     · exact rootNode_ne_data _ ps h
     · split at h
       · cases h
-      · rename_i D
-        split at h
+      · split at h
         · exact rootNode_ne_data _ ps h
         · cases h
       · split at h
@@ -797,20 +872,37 @@ theorem step_out (parse : β → Toc δ) {s : St β δ} (hi : Inv H s) (hv : s.l
     · exact rootNode_ne_data _ ps h
     · cases h
   | read steps =>
-    simp only [step, read, hv] at h
-    exact rawRead_out H hi hv steps ps h
+    simp only [step, read] at h
+    cases hr : s.layerR with
+    | none => rw [hr] at h; cases h
+    | verified => rw [hr] at h; exact ⟨by simp, Or.inl ⟨steps, h⟩⟩
+    | skipped => rw [hr] at h; exact ⟨by simp, Or.inl ⟨steps, h⟩⟩
   | passthrough f adv pre fb =>
     exfalso
-    simp only [step, passthrough, hv, rawPassthrough] at h
-    split at h
-    · split at h <;> cases h
-    · split at h
-      · cases h
+    simp only [step, passthrough, rawPassthrough] at h
+    cases hr : s.layerR <;> rw [hr] at h <;> simp only at h
+    · cases h
+    all_goals
+      split at h
       · split at h <;> cases h
+      · split at h
+        · cases h
+        · split at h <;> cases h
   | readFd f =>
-    simp only [step, readFd, hv] at h
-    exact rawReadFd_out H hi hv f ps h
+    simp only [step, readFd] at h
+    cases hr : s.layerR with
+    | none => rw [hr] at h; cases h
+    | verified => rw [hr] at h; exact ⟨by simp, Or.inr ⟨f, h⟩⟩
+    | skipped => rw [hr] at h; exact ⟨by simp, Or.inr ⟨f, h⟩⟩
   | evict tb => cases h
+
+/-- On a verified layer whatever an operation returns as data is digest-correct. -/
+theorem step_out (parse : β → Toc δ) {s : St β δ} (hi : Inv H s) (hv : s.layerR = .verified)
+    (o : Op β δ) (ps : List (Nat × β)) (h : (step H parse s o).2 = .data ps) :
+    PiecesGood H s.toc ps := by
+  rcases (step_data H parse s o ps h).2 with ⟨steps, h'⟩ | ⟨f, h'⟩
+  · exact rawRead_out H hi hv steps ps h'
+  · exact rawReadFd_out H hi hv f ps h'
 
 /-! ## strict configuration: the layer is never skip-verified -/
 
@@ -840,35 +932,22 @@ theorem layerVerify_not_skipped (s : St β δ) (D : δ) (h : s.layerR ≠ .skipp
   · rw [h3]; exact h
   · rw [h3]; simp
 
-theorem prefetchBegin_layerR (s : St β δ) (c : Nat) (reply : Option β) :
-    (prefetchBegin H s c reply).1.layerR = s.layerR := by
-  unfold prefetchBegin
-  rcases prefetchDecide_cases H s c reply with ⟨r, h⟩ | ⟨b, _, _, _, h⟩ | ⟨b, _, _, _, _, h⟩ <;> rw [h]
+theorem prefetchBeginWith_layerR (s : St β δ) (c : Nat) (reply : Option β) (dg : Option δ) :
+    (prefetchBeginWith H s c reply dg).1.layerR = s.layerR := by
+  unfold prefetchBeginWith
+  rcases prefetchDecideWith_cases H s c reply dg with ⟨r, h, _⟩ | ⟨b, _, _, _, h⟩ | ⟨b, _, _, _, _, h⟩ <;> rw [h]
 
 theorem prefetchCommit_layerR (s : St β δ) (i : Nat) : (prefetchCommit s i).1.layerR = s.layerR := by
   unfold prefetchCommit
   split <;> rfl
-
-theorem rawRead_layerR (s : St β δ) (steps : List (Step β)) :
-    (rawRead H s steps).1.layerR = s.layerR := by
-  unfold rawRead
-  split <;> rfl
-
-theorem rawPassthrough_layerR (s : St β δ) (f : Nat) (adv : Nat → Option β)
-    (pre : Nat → List (Nat × Option β)) (fb : Bool) :
-    (rawPassthrough H s f adv pre fb).1.layerR = s.layerR := by
-  unfold rawPassthrough
-  simp only
-  split
-  · rfl
-  · split <;> rfl
 
 theorem strict_step (parse : β → Toc δ) (s : St β δ) (o : Op β δ)
     (hd : s.cfg.disableVerification = false) (ha : s.cfg.allowNoVerification = false)
     (ho : o.isLayerSkip = false) (h : s.layerR ≠ .skipped) :
     (step H parse s o).1.layerR ≠ .skipped := by
   cases o with
-  | prefetchBegin c r => simp only [step]; rw [prefetchBegin_layerR]; exact h
+  | prefetchBegin c r => simp only [step]; rw [prefetchBegin_eq, prefetchBeginWith_layerR]; exact h
+  | prefetchBeginWith c r dg => simp only [step]; rw [prefetchBeginWith_layerR]; exact h
   | prefetchCommit i => simp only [step]; rw [prefetchCommit_layerR]; exact h
   | layerVerify D => exact layerVerify_not_skipped H s D h
   | layerSkip => simp [Op.isLayerSkip] at ho
@@ -882,13 +961,17 @@ theorem strict_step (parse : β → Toc δ) (s : St β δ) (o : Op β δ)
     simp only [step, read]
     cases hr : s.layerR with
     | none => simp [hr]
-    | verified => simp only; rw [rawRead_layerR, hr]; simp
+    | verified =>
+      obtain ⟨ca, h2, _⟩ := rawRead_pres H s steps
+      simp only; rw [h2]; simp [hr]
     | skipped => exact absurd hr h
   | passthrough f adv pre fb =>
     simp only [step, passthrough]
     cases hr : s.layerR with
     | none => simp [hr]
-    | verified => simp only; rw [rawPassthrough_layerR, hr]; simp
+    | verified =>
+      obtain ⟨ca, h2, _⟩ := rawPassthrough_pres H s f adv pre fb
+      simp only; rw [h2]; simp [hr]
     | skipped => exact absurd hr h
   | readFd f => simp only [step]; rw [readFd_state]; exact h
   | evict tb => simp [step, evict, init]
@@ -905,55 +988,6 @@ theorem strict_run (parse : β → Toc δ) (ops : List (Op β δ)) :
       (strict_step H parse s o hd ha (hn o (List.mem_cons_self ..)) h)
     · rw [step_cfg]; exact hd
     · rw [step_cfg]; exact ha
-
-/-- A layer object without a reader returns no data. -/
-theorem step_none_no_data (parse : β → Toc δ) (s : St β δ) (hn : s.layerR = .none) (o : Op β δ)
-    (ps : List (Nat × β)) : (step H parse s o).2 ≠ .data ps := by
-  intro h
-  cases o with
-  | prefetchBegin c r =>
-    simp only [step, prefetchBegin] at h
-    rcases prefetchDecide_cases H s c r with ⟨r', h'⟩ | ⟨b, _, _, _, h'⟩ | ⟨b, _, _, _, _, h'⟩
-    · rw [h'] at h
-      have h2 := h'
-      unfold prefetchDecide at h2
-      split at h2
-      · simp only [Prod.mk.injEq] at h2; rw [← h2.2.1] at h; cases h
-      · split at h2
-        · simp only [Prod.mk.injEq] at h2; rw [← h2.2.1] at h; cases h
-        · split at h2
-          · simp at h2
-          · split at h2
-            · simp only [Prod.mk.injEq] at h2; rw [← h2.2.1] at h; cases h
-            · simp at h2
-    · rw [h'] at h; cases h
-    · rw [h'] at h; cases h
-  | prefetchCommit i =>
-    simp only [step, prefetchCommit] at h
-    split at h <;> cases h
-  | layerVerify D => exact absurd h (layerVerify_ne_data H s D ps)
-  | layerSkip => cases h
-  | mount l =>
-    simp only [step, mount] at h
-    split at h
-    · exact rootNode_ne_data _ ps h
-    · split at h
-      · cases h
-      · split at h
-        · exact rootNode_ne_data _ ps h
-        · cases h
-      · split at h
-        · exact rootNode_ne_data _ ps h
-        · cases h
-  | storeLookup D =>
-    simp only [step, storeLookup] at h
-    split at h
-    · exact rootNode_ne_data _ ps h
-    · cases h
-  | read steps => simp only [step, read, hn] at h; cases h
-  | passthrough f adv pre fb => simp only [step, passthrough, hn] at h; cases h
-  | readFd f => simp only [step, readFd, hn] at h; cases h
-  | evict tb => cases h
 
 end
 end SV.Verify
